@@ -151,7 +151,7 @@ Definition check (model impl : list (list Q)) : bool :=
 def affine_correspondence(ctx, rng):
     from skfem.mapping import MappingAffine
     cases = []
-    nmesh = ctx.n(9, 40)
+    nmesh = ctx.n(15, 60)
     for it in range(nmesh):
         d = 1 + it % 3
         m = int_mesh(rng, d)
@@ -213,8 +213,72 @@ def affine_correspondence(ctx, rng):
             ctx.hist('affine_tind_mode', mode)
             ctx.hist('affine_point_layout', 'per-cell' if percell else 'shared')
             ctx.hist('affine_orientation', 'neg' if mp.detA[ia] < 0 else 'pos')
+            ctx.hist('facet_slot_and_order', f'd={d}:s={s}:q={q}')
     ctx.sample({'kind': 'affine correspondence', 'case': repr(cases[0][2]), 'impl': cases[0][1][:300]})
     ctx.corr('affine', 'From Coq Require Import List Arith Bool QArith Qabs.\nRequire Import Base.C20_Ring Model.C20_Tensor Model.C10_Map Gen.C10Gen.',
+             'run_case', 'check', cases, defs=CORR_DEFS, nontrivial=lambda r: r[1] >= 2)
+    return cases
+
+
+def iso_correspondence(ctx, rng):
+    """MappingIsoparametric with the P1 element on the same kind of meshes: every delivered quantity must be the one of
+    the exact affine model (C10_affine_iso_agree makes the two models the same term)"""
+    from skfem.mapping import MappingIsoparametric
+    cases = []
+    for it in range(ctx.n(8, 40)):
+        d = 2 + it % 2
+        m = int_mesh(rng, d)
+        nt, nf = m.t.shape[1], m.facets.shape[1]
+        mi = MappingIsoparametric(m, m.elem(), m.bndelem)
+        tind = None if rng.integers(0, 2) else rng.choice(nt, size=int(rng.integers(1, nt + 1)), replace=True).astype(np.int32)
+        cells = np.arange(nt) if tind is None else tind
+        npts = int(rng.integers(1, 4))
+        percell = bool(rng.integers(0, 2))
+
+        def inside(shape):           # dyadic points strictly inside the reference simplex (coordinates k/16, sum <= 9/16)
+            return rng.integers(1, 4, size=(d,) + shape) / 16.
+        try:
+            X = inside((len(cells), npts) if percell else (npts,))
+            X2 = inside((len(cells), npts))
+            x = mi.F(X, tind=tind)
+            xq = mi.F(X2, tind=tind)
+            Xb = mi.invF(xq, tind=tind)
+            DF, iDF, dDF = mi.DF(X, tind=tind), mi.invDF(X, tind=tind), mi.detDF(X, tind=tind)
+            find = None if rng.integers(0, 2) else rng.choice(nf, size=int(rng.integers(1, nf + 1)), replace=False).astype(np.int32)
+            facets = np.arange(nf) if find is None else find
+            fper = bool(rng.integers(0, 2))
+            Xf = rng.integers(1, 4, size=(d - 1, len(facets), npts) if fper else (d - 1, npts)) / 16.     # inside the reference facet
+            g, dG = mi.G(Xf, find=find), mi.detDG(Xf, find=find)
+            tn = m.f2t[0, facets]
+            Y0 = mi.invF(g, tind=tn)
+            nrm = mi.normals(Y0, tn, facets, m.t2f)
+            bJ = np.array([[mi.bndJ(i, j, Xf, find) for j in range(d - 1)] for i in range(d)])
+        except Exception as e:  # noqa: BLE001 - an exception of the code under test on a valid input is a failing input
+            ctx.fail(f'iso-exception:d={d}', f'MappingIsoparametric (P1, straight integer mesh) raises {type(e).__name__}: {e}',
+                     {'d': d, 'p': m.p.tolist(), 't': m.t.tolist(), 'tind': None if tind is None else tind.tolist(), 'per_cell_points': percell})
+            continue
+        zero = np.zeros((d, 1))
+        for _ in range(ctx.n(5, 8)):
+            kc, l = int(rng.integers(0, len(cells))), int(rng.integers(0, npts))
+            cell = int(cells[kc])
+            P = m.p[:, m.t[:, cell]].T
+            kf = int(rng.integers(0, len(facets)))
+            f = int(facets[kf])
+            fcell = int(m.f2t[0, f])
+            P2 = m.p[:, m.t[:, fcell]].T
+            s = int(np.nonzero(m.t2f[:, fcell] == f)[0][0])
+            q = [int(np.nonzero(m.t[:, fcell] == v)[0][0]) for v in m.facets[:, f]]
+            Xc = X[:, kc, l] if percell else X[:, l]
+            Xfc = Xf[:, kf, l] if fper else Xf[:, l]
+            b0 = mi.F(zero, tind=np.array([cell], dtype=np.int32))[:, 0, 0]
+            c0 = mi.G(np.zeros((d - 1, 1)), find=np.array([f], dtype=np.int32))[:, 0, 0]
+            impl = [DF[:, :, kc, l], b0, [dDF[kc, l]], x[:, kc, l], bJ[:, :, kf, l], c0, g[:, kf, l],
+                    iDF[:, :, kc, l], Xb[:, kc, l], [dG[kf, l] ** 2], nrm[:, kf, l]]
+            inp = (f'({cnat(d)}, {qlist(P)}, {qlist(Xc)}, {qlist(xq[:, kc, l])}, {qlist(P2)}, {cnats(q)}, {cnat(s)}, {qlist(Xfc)})')
+            cases.append((inp, clist([qlist(v) for v in impl]), ('iso-P1', d, tind is None, percell, fper, find is None, P.tolist(), q, s)))
+            ctx.hist('iso_dim', d)
+            ctx.hist('iso_point_layout', 'per-cell' if percell else 'shared')
+    ctx.corr('iso_p1', 'From Coq Require Import List Arith Bool QArith Qabs.\nRequire Import Base.C20_Ring Model.C20_Tensor Model.C10_Map Gen.C10Gen.',
              'run_case', 'check', cases, defs=CORR_DEFS, nontrivial=lambda r: r[1] >= 2)
     return cases
 
@@ -250,6 +314,7 @@ def run(ctx):
     ctx.prove()
     if gen_ok:
         affine_correspondence(ctx, rng)
+        iso_correspondence(ctx, rng)
     from .. import c10_oracle
     c10_oracle.run(ctx, rng)
 
